@@ -2126,7 +2126,9 @@ class C08(HistProp):
                 "change through a cursor on the still-compressed packet (C08_histories_from_parse_any_first); plus frame/shape lemmas "
                 "(C08_insert_shape, C08_header_setters_keep_view); with failing steps tolerated every such history runs to the end without a "
                 "Panic outcome (C08_histories_total). After a successful whole-packet rename of a packet as the parser returned it the object is "
-                "exactly the parse of its new bytes, every field (C08_rename_is_fresh_parse); the cursor that changed an owner name is the "
+                "exactly the parse of its new bytes, every field (C08_rename_is_fresh_parse), the same from any object satisfying the invariant; "
+                "histories that mix renames at any point with the cursor histories keep the object equal to a fresh parse of its bytes in "
+                "one of the two forms (C08_histories_with_rename); the cursor that changed an owner name is the "
                 "cursor on the renamed record and advancing it yields the record that followed (C08_cursor_after_rename, "
                 "C08_next_after_rename). Operations that move the cursor (TTL / address / name setters, deletion, "
                 "cursor decompression), insertion of OPT records or of a question, and histories on synthesised objects are decided each run "
@@ -2193,7 +2195,7 @@ class C09(HistProp):
                 "replaced by t and nothing else changed, PROVIDED no owner name of the section is read through the 4 bytes written; "
                 "C09_set_ttl_without_it_refuted shows the proviso is necessary - known finding data-pointer). Insertion from any state satisfying the C08 invariant appends the record to the reading "
                 "(C09_insert_on_decompressed); a successful whole-packet rename on a packet as the parser returned it leaves an object whose "
-                "packet reads as the renamed message up to case, counts kept, cursor untouched (C09_rename_effect). The refinement of the other "
+                "packet reads as the renamed message up to case, counts kept, cursor untouched (C09_rename_effect; from any object satisfying the invariant: C09_rename_on_decompressed). The refinement of the other "
                 "operations to the abstract message operations is decided each run by the correspondence and the abstract-effect oracle.")
 
     def gen(self, rng, tier):
@@ -2234,7 +2236,8 @@ class C10(HistProp):
                 "exactly as they were (C10_failed_set_name_changes_nothing, C10_failed_set_ip_changes_nothing), delete and set_rr_ttl cannot "
                 "fail (C10_delete_succeeds, C10_set_ttl_succeeds), none has a Panic outcome; histories that include them run to the end "
                 "(C08_histories_with_cursor_total). A failing whole-packet rename or recompute leaves object and cursor exactly as they were, any object, any arguments "
-                "(C10_failed_rename_changes_nothing, C10_failed_recompute_changes_nothing). Atomicity of the other failing operations (the question, text, "
+                "(C10_failed_rename_changes_nothing, C10_failed_recompute_changes_nothing); on a packet as the parser returned it the rename "
+                "succeeds or reports an error, its consistency assertion is unreachable (C10_rename_total, C10_rename_keeps_edns_summary). Atomicity of the other failing operations (the question, text, "
                 "operations that start on a compressed object) is decided each run by the correspondence and the before/after oracle.")
 
     def gen(self, rng, tier):
@@ -2879,6 +2882,22 @@ class C15(HistProp):
                     ops += [fop if fop is not None else st.op, "v", "fp", "ca", "b"]
             ops += ["F,b", "F,g"]
             cases.append(Case("f%d" % i, "\t".join(ops), {"family": "hook-script", "steps": [], "nsteps": len(steps)}))
+        # addresses of every kind address libraries treat specially, read and rewritten through the table (always present: the random
+        # scripts only sometimes draw such a record)
+        v4s = [bytes(x) for x in ([0, 0, 0, 0], [127, 0, 0, 1], [255, 255, 255, 255], [10, 0, 0, 1], [224, 0, 0, 1], [169, 254, 1, 1], [192, 0, 2, 1])]
+        v6s = [b"\0" * 10 + b"\xff\xff" + v4s[6], b"\0" * 12 + v4s[3], b"\0" * 16, b"\0" * 15 + b"\1", bytes.fromhex("0064ff9b") + b"\0" * 8 + v4s[6],
+               bytes.fromhex("fe80") + b"\0" * 10 + v4s[5], bytes.fromhex("ff02") + b"\0" * 13 + b"\1", b"\0" * 10 + b"\xff\xff" + v4s[1], b"\xff" * 16]
+        qn = [b"addr", b"example"]
+        for si, secname in enumerate(("an", "ns", "ar")):
+            recs = [G.RR([b"h%d" % j] + qn, 1, 1, 30 + j, ("raw", a4)) for j, a4 in enumerate(v4s)] + \
+                   [G.RR([b"g%d" % j] + qn, 28, 1, 40 + j, ("raw", a6)) for j, a6 in enumerate(v6s)]
+            secs = [[], [], []]
+            secs[si] = recs
+            for layout in ("none", "greedy"):
+                b, _ = G.encode(rng, G.Msg(21, 0x8180, qn, 1, 1, an=secs[0], ns=secs[1], ar=secs[2]), layout)
+                ops = ["P," + hx(b), "v", "fp", "ca", "b", "F,W,%s,*n.t.i" % secname, "v", "fp", "ca", "b",
+                       "F,W,%s,i.A%s.i/i.A%s.i/*i" % (secname, hx(v4s[2]), hx(v4s[0])), "v", "fp", "ca", "b", "F,W,%s,*i" % secname, "v", "fp", "ca", "b"]
+                cases.append(Case("f%d" % len(cases), "\t".join(ops), {"family": "special-addresses", "steps": [], "nsteps": 3}))
         # set_name through the table: text name + optional default zone (absolute names ignore the zone; relative ones get it appended),
         # short and long (the conversion's 253-byte limit applies to what is actually encoded)
         zone_l = [b"example", b"com"]
